@@ -1,0 +1,43 @@
+package store
+
+import (
+	"context"
+	"fmt"
+	"io"
+
+	"github.com/glebziz/fs_db/internal/model"
+)
+
+// Checked is the store use case as the clients get it: a write that names a
+// transaction which is not open (it has ended, or never existed) is refused
+// before anything is stored, the way reads are.
+type Checked struct {
+	*UseCase
+}
+
+func (u Checked) Set(ctx context.Context, key string, content io.Reader) error {
+	err := u.checkTx(ctx)
+	if err != nil {
+		return err
+	}
+
+	return u.UseCase.Set(ctx, key, content)
+}
+
+func (u Checked) Delete(ctx context.Context, key string) error {
+	err := u.checkTx(ctx)
+	if err != nil {
+		return err
+	}
+
+	return u.UseCase.Delete(ctx, key)
+}
+
+func (u Checked) checkTx(ctx context.Context) error {
+	_, err := u.txRepo.Get(ctx, model.GetTxId(ctx))
+	if err != nil {
+		return fmt.Errorf("tx repository get: %w", err)
+	}
+
+	return nil
+}
